@@ -158,6 +158,10 @@ func (rig *c08Rig) present(e c08Elem) {
 		put("6\x001000\n")
 	case "hex":
 		put("0x10\n")
+	case "blank":
+		put(" \n")
+	case "newline":
+		put("\n")
 	}
 }
 
@@ -249,7 +253,7 @@ func c08Kinds(sensor string) []string {
 	if sensor == "cmd" {
 		return []string{"ok", "ok", "exit1", "garbage", "nan", "inf", "-inf", "empty"}
 	}
-	return []string{"ok", "ok", "missing", "empty", "nonnumeric", "eio", "eacces", "prefix-garbage", "unit-suffix", "exponent", "torn-write", "hex"}
+	return []string{"ok", "ok", "missing", "empty", "nonnumeric", "eio", "eacces", "prefix-garbage", "unit-suffix", "exponent", "torn-write", "hex", "blank", "newline"}
 }
 
 func c08Val(r *rand.Rand, sensor string) float64 {
@@ -277,9 +281,9 @@ func init() {
 			defer rigs[k].close()
 		}
 		// exhaustive short sequences: every placement of every fault kind
-		maxLen := map[string]int{"hwmon": 4, "file": 4, "file-home": 3, "cmd": 3}
+		maxLen := map[string]int{"hwmon": 3, "file": 4, "file-home": 3, "cmd": 3}
 		if ctx.Thorough() {
-			maxLen = map[string]int{"hwmon": 6, "file": 6, "file-home": 5, "cmd": 4}
+			maxLen = map[string]int{"hwmon": 5, "file": 5, "file-home": 4, "cmd": 4}
 		}
 		idx := 0
 		for _, sk := range []string{"hwmon", "file", "file-home", "cmd"} {
